@@ -137,13 +137,14 @@ class _State:
 
 
 class Engine:
-    def __init__(self, F, stop=None, depth=3, limit=3000, callee_limit=48, inline_closures=True):
+    def __init__(self, F, stop=None, depth=3, limit=3000, callee_limit=48, inline_closures=True, model_unwrap=False):
         self.F = F
         self.stop = stop or (lambda name: False)
         self.depth = depth
         self.limit = limit
         self.callee_limit = callee_limit
         self.inline_closures = inline_closures
+        self.model_unwrap = model_unwrap
         self.cache = {}
         self.truncated = False
 
@@ -535,6 +536,9 @@ class Engine:
             x = args[0] if args else None
             some, none = [enum_atom(x, "Some")], [enum_atom(x, "None")]
             pl = payload(x, "Some") if x is not None else None
+            if meth in ("unwrap", "expect", "unwrap_unchecked") and self.model_unwrap:
+                # on the paths that continue, the value was Some
+                return [(some, [], [], pl)]
             if meth == "map" and len(args) == 2:
                 r = with_closure(args[1], [pl], some, SOME)
                 return None if r is None else r + [(none, [], [], NONE)]
@@ -582,6 +586,8 @@ class Engine:
             x = args[0] if args else None
             ok, err = [enum_atom(x, "Ok")], [enum_atom(x, "Err")]
             po, pe = payload(x, "Ok"), payload(x, "Err")
+            if meth in ("unwrap", "expect") and self.model_unwrap:
+                return [(ok, [], [], po)]
             if meth == "map" and len(args) == 2:
                 r = with_closure(args[1], [po], ok, OK)
                 return None if r is None else r + [(err, [], [], ERR(pe))]
@@ -683,12 +689,12 @@ def _consistent(atoms):
     return True
 
 
-def ipaths(F, f, stop=None, depth=3, start=0, ends=None, avoid=(), limit=3000, engine=None):
+def ipaths(F, f, stop=None, depth=3, start=0, ends=None, avoid=(), limit=3000, engine=None, model_unwrap=False):
     """interprocedural symbolic paths of f; falls back to depth 0 (no inlining) when the budget is exceeded"""
     stop_fn = stop if callable(stop) else ((lambda n, s=frozenset(stop or ()): n in s))
     d = depth
     while d >= 0:
-        eng = engine or Engine(F, stop_fn, d, limit)
+        eng = engine or Engine(F, stop_fn, d, limit, model_unwrap=model_unwrap)
         eng.depth = d
         ps = eng.run(f, d, (f.name,), start=start, ends=ends, avoid=avoid)
         if ps is not None:
@@ -696,3 +702,17 @@ def ipaths(F, f, stop=None, depth=3, start=0, ends=None, avoid=(), limit=3000, e
         engine = None
         d -= 1
     return []
+
+
+def bool_outcomes(p):
+    """a path returning a bool as (atoms, result) pairs: a symbolic result is split into its two outcomes"""
+    r = p.ret
+    neg = False
+    while isinstance(r, tuple) and r and r[0] == "unop" and r[1] == "Not":
+        r, neg = r[2], not neg
+    if r[0] == "const" and isinstance(r[1], (bool, int)):
+        return [(list(p.atoms), bool(r[1]) != neg)]
+    for a in p.atoms:
+        if a[0] == "bool" and strip_site(unclone(a[1])) == strip_site(unclone(r)):
+            return [(list(p.atoms), a[2] != neg)]          # the path has already decided this very value
+    return [(list(p.atoms) + [("bool", r, True, None, 10 ** 9)], not neg), (list(p.atoms) + [("bool", r, False, None, 10 ** 9)], neg)]
